@@ -27,15 +27,18 @@ def __getitem__(self, i):
     CD + 'insert': ('def insert(self, i, v):\n    self._check(v)\n    self.frames.insert(i, v)\n', ('calls',)),
     OC + '__setitem__': ('''
 def __setitem__(self, i, v):
-    # list model: the frame ends up at position i (from the end when negative); the label is that position's
+    # list model: a position outside [-len, len) does not exist (a list raises IndexError, also below -len: it does not wrap
+    # twice); otherwise the frame ends up at position i, counted from the end when negative, and the label is that position's
     self._check(v)
+    if not -len(self) <= i < len(self):
+        raise IndexError("index out of range")
     if i < 0:
         i = len(self) + i
     label = self.order[i]
     self.frames[i] = v
     if "order_label" not in v.metadata:
         v.add_metadata({"order_label": label})
-''', ('substores', 'calls')),
+''', ('substores', 'calls', 'raises')),
     OC + 'insert': ('''
 def insert(self, i, v):
     # list model: list.insert clamps the position into [0, len]; the label is the one at the position the frame lands on
@@ -68,6 +71,19 @@ def _check(self, v):
             if getattr(v, attr) != getattr(self.frames[0], attr):
                 raise AttributeError("mismatch")
 ''', ('raises',)),
+}
+# the same list model, realised by letting the list itself decide whether the position exists: store with the index as given
+# (raises IndexError outside [-len, len)), then label the position the frame landed on
+ALTERNATIVE_REFS = {
+    OC + '__setitem__': ['''
+def __setitem__(self, i, v):
+    self._check(v)
+    self.frames[i] = v
+    if i < 0:
+        i = len(self) + i
+    if "order_label" not in v.metadata:
+        v.add_metadata({"order_label": self.order[i]})
+'''],
 }
 FIRST_PROPS = ('fch1', 'ascending', 'fmin', 'fmax', 'fmid', 'df', 'dt', 'fchans')
 NO_INLINE = (CD + '_check', 'frame.Frame.add_metadata', CD + '__init__', CD + '__len__', CD + '__iter__', CD + '__getitem__')
@@ -181,8 +197,20 @@ def run(ctx):
     for short, (ref, what) in REFS.items():
         ctx.clause = 'D2' if short.endswith('_check') else ('D4' if short.startswith(OC) else 'D3')
         fi = ctx.func(short)
-        agree_ref(ctx, fi, ref, fi.short.split('.', 1)[1], what=what, expand=False, max_depth=0, no_inline=NO_INLINE,
-                  norm_call=list_insert_position)
+        alts = [ref] + ALTERNATIVE_REFS.get(short, [])
+        for k, ref_k in enumerate(alts):
+            # (a method may realise the list model in more than one way: the first reference it agrees with decides; the
+            #  report is against the primary one)
+            n0 = len(ctx.obligations)
+            agree_ref(ctx, fi, ref_k, fi.short.split('.', 1)[1], what=what, expand=False, max_depth=0, no_inline=NO_INLINE,
+                      norm_call=list_insert_position)
+            if not any(o.verdict == 'VIOLATED' for o in ctx.obligations[n0:]):
+                break
+            if k == 0:
+                primary = ctx.obligations[n0:]
+            del ctx.obligations[n0:]
+        else:
+            ctx.obligations.extend(primary)
     # a frame is labelled only once it is in the cadence: in the ordered item assignment the label is attached after the
     # store (which raises for a position that does not exist), so a rejected frame keeps no stray label
     ctx.clause = 'D4'
